@@ -5,8 +5,8 @@ From Desper Require Import Lib.Alist Coro.Model Coro.Spec Coro.Main Coro.Release
 Import ListNotations.
 Open Scope Z_scope.
 
-(* Every trace of observations that the model of CoroutineProcessor accepts,
-   whose scripts do not contain the known finding K9, satisfies the
+(* Every trace of observations that the model of CoroutineProcessor accepts
+   satisfies the
    lifecycle clauses checked by the abstract scheduler of Coro/Spec.v
    ([ok09]) at every operation - issued between frames or from inside a
    coroutine body:
@@ -109,16 +109,11 @@ Example C09_not_released_rejected :
                          (Process 8, ObsP [] OOk)] [0]) = false.
 Proof. vm_compute. reflexivity. Qed.
 
-(* Known finding K9 (reproduces on /repo): a coroutine that kills itself and
-   returns in the same resumption keeps its kill mark for ever - it is never
-   released (and a later start() of it raises KeyError).  The model mirrors
-   the defective code. *)
-Theorem C09_selfkill_return_refuted :
-  exists c : C09_case, wf_b c = true /\ known09_b c = true /\ accepts c = true /\
-                       holds09_b c = false.
-Proof.
-  exists (mkCase [(0, [([(AKill 0)], (RReturn (Some 5)))])]
-                 [(Start 0, ObsR OOk); (Process 8, ObsP [(0, 0, [OOk])] OOk);
-                  (State 0, ObsR (OState 0))] [0]).
-  vm_compute. auto.
-Qed.
+(* former finding K9 (repaired in /repo): a coroutine kills itself and
+   returns in the same resumption; the unrepaired code kept its kill mark and
+   with it the generator for ever *)
+Example C09_stale_kill_mark_rejected :
+  holds09_b (mkCase [(0, [([(AKill 0)], (RReturn (Some 5)))])]
+                    [(Start 0, ObsR OOk); (Process 8, ObsP [(0, 0, [OOk])] OOk);
+                     (State 0, ObsR (OState 0))] [0]) = false.
+Proof. vm_compute. reflexivity. Qed.
